@@ -63,7 +63,10 @@ class Builder:
             if rng.random() < 0.7 or "rng_always" in allow:
                 e["rng"] = {"seed": _seed(rng)}
         if "clock" in allow and rng.random() < 0.8:
-            e["clock"] = clock_fault(rng, int((params or {}).get("n_trial_calculation", 4) or 4))
+            nt = (params or {}).get("n_trial_calculation", 4) or 4
+            if isinstance(nt, dict):
+                nt = nt.get("$npint", 4)
+            e["clock"] = clock_fault(rng, int(nt))
         if "arpack" in allow and rng.random() < 0.7:
             e["arpack"] = {"mode": rng.choice(["dense", "sparse", "orth", "same"]), "seed": _seed(rng)}
             if "interrupt" in allow and rng.random() < 0.5:
@@ -526,9 +529,31 @@ def _reads_ops(name, s, fit_args, b, env=None):
     return ops
 
 
+def _vary_param_forms(rng, params):
+    """Swarm over argument forms: a plain numeric hyper-parameter is sometimes given as a
+    numpy scalar, and an optional one is sometimes left at its default."""
+    for k in list(params):
+        v = params[k]
+        if isinstance(v, bool) or isinstance(v, dict) or v is None or isinstance(v, (list, str)):
+            continue
+        r = rng.random()
+        if isinstance(v, int) and r < 0.04:
+            params[k] = {"$npint": v, "dtype": rng.choice(["int64", "int32", "intp"])}
+        elif isinstance(v, float) and r < 0.04:
+            params[k] = {"$npfloat": v, "dtype": "float64"}
+    if rng.random() < 0.12:
+        opt = [k for k, v in params.items() if not isinstance(v, dict) and k not in ("score_threshold_type", "random_state")]
+        if opt:
+            k = rng.choice(opt)
+            del params[k]
+            if k == "score_threshold":
+                params.pop("score_threshold_type", None)
+
+
 def gen_class_trace(b, kind, pattern):
     rng = b.rng
     s = SUBJECTS[kind](b, kind, pattern)
+    _vary_param_forms(rng, s["params"])
     ops = b.ops
     allow = list(s["envs"])
     if pattern == "refit" and rng.random() < 0.2:
